@@ -53,6 +53,10 @@ canonical_harness!(header_version_canonical, grin_core::core::block::HeaderVersi
 canonical_harness!(output_identifier_canonical, grin_core::core::OutputIdentifier, 34);
 canonical_harness!(txkernel_canonical, grin_core::core::TxKernel, 114);
 canonical_harness!(difficulty_canonical, grin_core::pow::Difficulty, 8);
+canonical_harness!(block_sums_canonical, grin_core::core::BlockSums, 66);
+canonical_harness!(short_id_canonical, grin_core::core::id::ShortId, 6);
+canonical_harness!(nrd_list_wrapper_canonical, grin_chain::linked_list::ListWrapper<grin_chain::types::CommitPos>, 17);
+canonical_harness!(nrd_list_entry_canonical, grin_chain::linked_list::ListEntry<grin_chain::types::CommitPos>, 33);
 
 /// timestamp of this query (the conversion through chrono is division-heavy: a symbolic
 /// timestamp made the query exceed 20 GB, so boundary values are enumerated, one per query)
@@ -110,5 +114,9 @@ pub const HARNESSES: &[(&str, fn())] = &[
 	("c10b::output_identifier_canonical", output_identifier_canonical),
 	("c10b::txkernel_canonical", txkernel_canonical),
 	("c10b::difficulty_canonical", difficulty_canonical),
+	("c10b::block_sums_canonical", block_sums_canonical),
+	("c10b::short_id_canonical", short_id_canonical),
+	("c10b::nrd_list_wrapper_canonical", nrd_list_wrapper_canonical),
+	("c10b::nrd_list_entry_canonical", nrd_list_entry_canonical),
 	("c10b::block_header_canonical", block_header_canonical),
 ];
